@@ -703,10 +703,19 @@ def nomut(index, rep):
     rep.check(ok, rule, "set_depending_on_option:scenario_option_copy",
               f"scenario_option_copy is not a deep copy of the caller's options on every path ({srcs})", loc=loc(RUN, fn))
     # reads after the copy go to the copy, never to the original (otherwise an alteration would be ignored)
-    copy_line = min((st.lineno for st in walk_no_nested(fn) if isinstance(st, ast.Assign)
-                     and isinstance(st.targets[0], ast.Name) and st.targets[0].id == "scenario_option_copy"), default=None)
-    late = [n.lineno for n in walk_no_nested(fn) if isinstance(n, ast.Subscript) and isinstance(n.value, ast.Name)
-            and n.value.id == "scenario_option" and copy_line and n.lineno > copy_line + 12]
+    # (by statement order, not line distance: every top-level statement AFTER the one that makes the copy)
+    opt_param = [a.arg for a in fn.args.args if a.arg != "self"][0]
+    top_i = None
+    for i_, st in enumerate(fn.body):
+        if any(isinstance(x, ast.Assign) and isinstance(x.targets[0], ast.Name) and x.targets[0].id == "scenario_option_copy" for x in ast.walk(st)):
+            top_i = i_
+            break
+    late = []
+    if top_i is not None:
+        for st in fn.body[top_i + 1:]:
+            for n in ast.walk(st):
+                if isinstance(n, ast.Subscript) and isinstance(n.value, ast.Name) and n.value.id == opt_param:
+                    late.append(n.lineno)
     rep.check(not late, rule, "set_depending_on_option:reads-copy",
               f"option values are read from the caller's dictionary after the (possibly altered) copy was made, lines {late[:4]}",
               loc=loc(RUN, fn))
